@@ -115,12 +115,21 @@ Fixpoint first_diff (a b : dtree) : option string :=
   | _, _ => Some ("shape: GO " ++ show_tree a ++ "  ///  TLA " ++ show_tree b)
   end.
 
+Fixpoint first_unsupported (e : expr) : option string :=
+  match e with
+  | Nd (TUnsupported w) _ => Some w
+  | Nd _ cs => (fix go (cs : list expr) := match cs with [] => None | c :: r => match first_unsupported c with Some w => Some w | None => go r end end) cs
+  end.
+Definition first_unsupported_l (es : list expr) : option string :=
+  (fix go (cs : list expr) := match cs with [] => None | c :: r => match first_unsupported c with Some w => Some w | None => go r end end) es.
+
 Fixpoint first_fail (t : dtree) : option string :=
   match t with
   | Fail m => Some m
+  | Leaf (LCommit g l p) => first_unsupported_l (map snd g ++ map snd l ++ p)%list
   | Leaf _ => None
-  | Branch _ a b => match first_fail a with Some m => Some m | None => first_fail b end
-  | Choice _ k => first_fail k
+  | Branch c a b => match first_unsupported c with Some m => Some m | None => match first_fail a with Some m => Some m | None => first_fail b end end
+  | Choice s k => match first_unsupported s with Some m => Some m | None => first_fail k end
   | Either ts => (fix go (ts : list dtree) := match ts with [] => None | x :: r => match first_fail x with Some m => Some m | None => go r end end) ts
   end.
 
